@@ -827,7 +827,8 @@ def direct_connect_outputs(block=None):
     wirevectors_to_remove = set()
 
     for net in block.logic:
-        if net.op == '@':
+        if net.op in '@r':
+            # write ports have no destination; a register net must keep its Register destination
             continue
 
         dest_wire = net.dests[0]
